@@ -79,6 +79,17 @@ def enclosing_branches(f: FuncInfo, node: ast.AST) -> List[Tuple[ast.If, bool]]:
     return path
 
 
+def branch_conds(f: FuncInfo, node: ast.AST) -> List[Tuple[str, bool]]:
+    """enclosing_branches as (normalised text of the condition, truth value it has on the way to `node`), with a leading `not` folded into the truth value"""
+    out = []
+    for i, taken in enclosing_branches(f, node):
+        t = i.test
+        while isinstance(t, ast.UnaryOp) and isinstance(t.op, ast.Not):
+            t, taken = t.operand, not taken
+        out.append((norm_text(t).replace('"', "'"), taken))
+    return out
+
+
 def returns_of(f: FuncInfo) -> List[ast.Return]:
     return [n for n in f.body_nodes() if isinstance(n, ast.Return)]
 
